@@ -1016,7 +1016,7 @@ func checkMatrices(ctx *Ctx, r *Report) {
 }
 
 // screwSpec: the composite of Screw3D and ScrewSDF3.Evaluate is
-// max(|z| − length/2, thread(SawTooth(z − starts·pitch·atan2(y,x)/τ, pitch), r [+ z·atan(taper)]))
+// max(|z| − length/2, thread(SawTooth(z − starts·pitch·atan2(y,x)/τ, pitch), r [+ z·tan(taper)]))
 // (right-handed for positive starts, period = pitch).
 func screwSpec(ctx *Ctx, r *Report, rule string) {
 	fn := ctx.ssaFunc("sdf", "Screw3D")
@@ -1054,8 +1054,10 @@ func screwSpec(ctx *Ctx, r *Report, rule string) {
 		r.check(rule, "Screw3D|helix-right-handed-period-pitch", fn.Pos(), equalRat(plain, want),
 			"untapered: max(|z|−length/2, thread(SawTooth(z − starts·pitch·θ/τ, pitch), r)); composite = "+shortKey(plain.Key(), 300))
 		tap := assume(t, map[string]bool{tp.Key(): false})
-		wantT := Call("math.Max", clip, opEval("thread", x0, Add(rr, Mul(pZ, Call("math.Atan", A("taper"))))))
-		r.check(rule, "Screw3D|taper-shifts-the-radius-linearly-in-z", fn.Pos(), equalRat(tap, wantT), "tapered: radius argument r + z·atan(taper); composite = "+shortKey(tap.Key(), 300))
+		// taper is documented as an angle (radians): the cone's slope is its tangent - the same
+		// tan(taper) the constructor uses for the bounding box
+		wantT := Call("math.Max", clip, opEval("thread", x0, Add(rr, Mul(pZ, Call("math.Tan", A("taper"))))))
+		r.check(rule, "Screw3D|taper-shifts-the-radius-linearly-in-z", fn.Pos(), equalRat(tap, wantT), "tapered: radius argument r + z·tan(taper) for a taper angle; composite = "+shortKey(tap.Key(), 300))
 	}
 }
 
